@@ -38,6 +38,9 @@ def read_contracts_from_file(  # noqa: WPS231 too much cognitive complexity
         for kw in ("type", "name", "data"):
             if kw not in entry:
                 raise ContractFormatError(f'Keyword "{kw}" not found in an entry of {file_name}.')
+        for kw in ("type", "name"):
+            if not isinstance(entry[kw], str):
+                raise ContractFormatError(f'The "{kw}" of an entry of {file_name} should be a string.')
     # we load each contract according to the type
     contracts: List[Any] = []
     names = []
